@@ -121,3 +121,27 @@ package pod_info
 //@   ensures [resreq-dra-copied] forall k string :: result.ResReq.draGpuCounts[k] == pi.ResReq.draGpuCounts[k] && (k in result.ResReq.draGpuCounts <==> k in pi.ResReq.draGpuCounts)
 //@   ensures [accepted-copied] result.AcceptedResource.milliCpu == pi.AcceptedResource.milliCpu && result.AcceptedResource.memory == pi.AcceptedResource.memory && result.AcceptedResource.count == pi.AcceptedResource.count && result.AcceptedResource.portion == pi.AcceptedResource.portion && result.AcceptedResource.gpuMemory == pi.AcceptedResource.gpuMemory
 //@ end
+
+// ---- C10 (pods bullet): the constructor pieces are total on every pod -----------------------------------
+//@ func getPodResourceWithoutInitContainers
+//@   props C10 C19
+//@   requires pod != nil
+//@   fresh
+//@   loop 1
+//@     invariant -1 <= rangeindex && rangeindex < len(pod.Spec.Containers)
+//@     invariant podResourcesList != nil && fresh(podResourcesList)
+//@   loop 2
+//@     invariant podResourcesList != nil && fresh(podResourcesList)
+//@   ensures fresh(result.scalarResources) && fresh(result.migResources) && fresh(result.draGpuCounts)
+//@ end
+
+//@ func getPodResourceRequest
+//@   props C10 C19
+//@   requires pod != nil
+//@   fresh
+//@   loop 1
+//@     invariant -1 <= rangeindex && rangeindex < len(pod.Spec.InitContainers)
+//@     invariant result != nil && fresh(result) && fresh(result.scalarResources) && fresh(result.migResources) && fresh(result.draGpuCounts)
+//@   ensures fresh(result.scalarResources) && fresh(result.migResources) && fresh(result.draGpuCounts)
+//@   ensures [one-pod] result.scalarResources[resource_info.PodsResourceName] == 1
+//@ end
